@@ -140,3 +140,44 @@ Definition enc_col (c : col) : list Z :=
   enc_var (cvar c) ++ enc_Q (clb c) ++ enc_Q (cub c) ++ [if cint c then 1 else 0]%Z.
 Definition enc_emitted (r : result unit * list col * list row) : list (list Z) :=
   match r with (o, cs, rs) => enc_result (fun _ => []) o :: [Z.of_nat (length cs)] :: map enc_col cs ++ map enc_row rs end.
+
+(* ------------------------------------------------------------------------- variables keyed by index tuples (model encoders) *)
+(* self.solver.add_variables(indexes, name_prefix="edge" | "pi" | "w" | "r" | ..., lb, ub, var_type): one column per index; the variable of
+   index (u, v, i) / (i, j) / i in family fam is V fam [u; v; i] / V fam [i; j] / V fam [i] — Lin.Edge, Lin.Pi, PathEnc.R, Lin.W *)
+Definition vkey3 (k : N * N * Z) : list N := [fst (fst k); snd (fst k); Z.to_N (snd k)].
+Definition vkey2 (k : Z * Z) : list N := [Z.to_N (fst k); Z.to_N (snd k)].
+Definition vkey1 (k : Z) : list N := [Z.to_N k].
+Definition py_new_vars {K} (fam : N) (enc : K -> list N) (idx : list K) (lb ub : Q) (isint : bool) : list col :=
+  map (fun k => {| cvar := V fam (enc k); clb := lb; cub := ub; cint := isint |}) idx.
+Definition eqb3 : (N * N * Z) -> (N * N * Z) -> bool := py_pair_eqb (py_pair_eqb N.eqb N.eqb) Z.eqb.
+Definition eqb2 : (Z * Z) -> (Z * Z) -> bool := py_pair_eqb Z.eqb Z.eqb.
+Lemma eqb3_eq : forall a b, eqb3 a b = true <-> a = b.
+Proof.
+  intros [[a1 a2] a3] [[b1 b2] b3]; unfold eqb3, py_pair_eqb; cbn [fst snd].
+  rewrite !andb_true_iff, !N.eqb_eq, Z.eqb_eq. split; [intros [[-> ->] ->]; reflexivity | intro H; inversion H; auto].
+Qed.
+Lemma eqb2_eq : forall a b, eqb2 a b = true <-> a = b.
+Proof.
+  intros [a1 a2] [b1 b2]; unfold eqb2, py_pair_eqb; cbn [fst snd].
+  rewrite andb_true_iff, !Z.eqb_eq. split; [intros [-> ->]; reflexivity | intro H; inversion H; auto].
+Qed.
+
+(* self.G[u][v].get(self.length_attr, 1): the harness passes, for every edge, the value of that very expression *)
+Definition py_edge_len (lens : list (N * N * Q)) (u v : N) : Q := py_dict_get edge_eqb lens (u, v) 1.
+(* sum(<numbers>) *)
+Definition py_sum (l : list Q) : Q := fold_left Qplus l 0.
+Lemma py_sum_sumQ : forall l, py_sum l == sumQ l.
+Proof.
+  unfold py_sum. assert (G : forall l a, fold_left Qplus l a == a + sumQ l).
+  { induction l as [|x l IH]; intro a; cbn [fold_left sumQ]; [ring | rewrite IH; ring]. }
+  intro l. rewrite G. ring.
+Qed.
+
+(* the objective handed to set_objective: expression and sense *)
+Definition enc_lin (l : lin) : list Z := Z.of_nat (length l) :: flat_map (fun t => enc_var (fst t) ++ enc_Q (snd t)) l.
+
+(* self.G.edges(data=True) with the data dict restricted to the flow attribute: None = the edge has no such attribute *)
+Definition py_edges_data (es : list (N * N)) (flows : list (N * N * Q)) : list (N * N * option Q) :=
+  map (fun e => (fst e, snd e, py_dict_find edge_eqb flows e)) es.
+Definition enc_obj (o : option (lexp * bool)) : list Z :=
+  match o with None => [0%Z] | Some (e, mx) => (if mx then 2%Z else 1%Z) :: enc_Q (lconst e) ++ enc_lin (lterms e) end.
